@@ -104,7 +104,45 @@ def run(ctx):
         o, err = core.run_lines(impl, ["seeds x x x"])
         if not err and o[0].startswith("ok "):
             rich = [bytes.fromhex(h) for h in o[0].split()[1:]]
+    # OPEN messages with ONE capability of the package's test OPEN each, and with each capability placed last behind another
+    # one: a decoder that trusts an inner length then meets the end of the buffer exactly where the capability ends
+    def open_variants(b):
+        if len(b) < 29 or b[18] != 1:
+            return []
+        caps, i, end = [], 29, 29 + b[28]
+        while i + 2 <= min(end, len(b)):
+            if b[i] != 2:
+                break
+            pl = b[i + 1]
+            j = i + 2
+            while j + 2 <= i + 2 + pl:
+                cl = b[j + 1]
+                caps.append(bytes(b[j:j + 2 + cl]))
+                j += 2 + cl
+            i += 2 + pl
+        out = []
+
+        def mk(cs):
+            body = b"".join(bytes([2, len(c)]) + c for c in cs)
+            if len(body) > 255:
+                return None
+            m = bytes(b[:16]) + bytes([0, 0, 1]) + bytes(b[19:28]) + bytes([len(body)]) + body
+            return m[:16] + bytes([len(m) >> 8, len(m) & 255]) + m[18:]
+        for k, c in enumerate(caps):
+            for cs in ([c], [caps[(k + 1) % len(caps)], c]):
+                m = mk(cs)
+                if m:
+                    out.append(m)
+        return out
     cases = []
+    for b in rich:
+        for m in open_variants(b):
+            for k in range(29, len(m)):
+                for v in (0, 255, (m[k] + 1) & 255, (m[k] - 1) & 255, m[k] ^ 0x80):
+                    if m[k] != v:
+                        cases.append({"op": "fuzz", "ap": False, "as2": False, "bytes": m[:k] + bytes([v]) + m[k + 1:]})
+            for k in range(29, len(m)):
+                cases.append({"op": "fuzz", "ap": False, "as2": False, "bytes": m[:16] + bytes([k >> 8, k & 255]) + m[18:k]})
     for b in rich:
         # every attribute type / capability / family of the package's own test messages
         for k in range(19, len(b)):
